@@ -6,7 +6,8 @@
 // consensus state, the OnStart order) is exercised there. Here every incarnation of the node is built with
 // node.NewNode over
 //
-//   - crash-point databases: the "disk" is a set of lib.CrashDB (journalled MemDBs) that outlive the node object;
+//   - crash-point databases: the "disk" is a set of MemDBs that outlive the node object (the crash model of
+//     lib.CrashDB: what was written before the crash point is there, nothing after it; batches are atomic);
 //     each incarnation reaches them through its own gate (nodeInc): every mutation (and every call on the consensus
 //     connection of the application) is one persistence operation, counted and labelled; the k-th one is the crash;
 //   - an in-process recording application (lib.ScriptApp) that outlives the node (it is another process), reached
@@ -42,7 +43,6 @@ import (
 	"path/filepath"
 	"runtime"
 	"runtime/debug"
-	"sort"
 	"strconv"
 	"strings"
 	"sync"
@@ -211,17 +211,16 @@ func genNodeScenario(t *rapid.T) nodeScenario {
 // the world that outlives node objects
 
 type nodeWorld struct {
-	sc      nodeScenario
-	root    string
-	journal *lib.CrashJournal
-	disk    map[string]*lib.CrashDB // by DBContext.ID
-	diskMu  sync.Mutex
-	app     *lib.ScriptApp
-	gen     *types.GenesisDoc
-	fed     map[int]bool
-	incs    []*nodeInc
-	parked  int32 // goroutines of dead incarnations parked for good
-	trace   []string
+	sc     nodeScenario
+	root   string
+	disk   map[string]*dbm.MemDB // by DBContext.ID: what is "on disk"; outlives every node object
+	diskMu sync.Mutex
+	app    *lib.ScriptApp
+	gen    *types.GenesisDoc
+	fed    map[int]bool
+	incs   []*nodeInc
+	parked int32 // goroutines of dead incarnations parked for good
+	trace  []string
 }
 
 func newNodeWorld(sc nodeScenario) (*nodeWorld, error) {
@@ -229,7 +228,7 @@ func newNodeWorld(sc nodeScenario) (*nodeWorld, error) {
 	if err != nil {
 		return nil, err
 	}
-	w := &nodeWorld{sc: sc, root: root, journal: lib.NewCrashJournal(), disk: map[string]*lib.CrashDB{}, app: lib.NewScriptApp(), fed: map[int]bool{}}
+	w := &nodeWorld{sc: sc, root: root, disk: map[string]*dbm.MemDB{}, app: lib.NewScriptApp(), fed: map[int]bool{}}
 	pk := lib.Key(0).PubKey()
 	w.gen = &types.GenesisDoc{GenesisTime: sc.GenTime, ChainID: "c05-node-chain", InitialHeight: sc.Initial,
 		ConsensusParams: types.DefaultConsensusParams(),
@@ -265,7 +264,31 @@ func newNodeWorld(sc nodeScenario) (*nodeWorld, error) {
 	return w, nil
 }
 
-func (w *nodeWorld) cleanup() { os.RemoveAll(w.root) }
+// cleanup ends a case: every incarnation is dead by now; what leaked goroutines of hung stops keep reachable is
+// emptied (they can no longer pass their gates).
+func (w *nodeWorld) cleanup() {
+	for _, inc := range w.incs {
+		inc.kill()
+	}
+	os.RemoveAll(w.root)
+	w.diskMu.Lock()
+	for _, d := range w.disk {
+		var keys [][]byte
+		if it, err := d.Iterator(nil, nil); err == nil {
+			for ; it.Valid(); it.Next() {
+				keys = append(keys, it.Key())
+			}
+			it.Close()
+		}
+		for _, k := range keys {
+			d.Delete(k) //nolint
+		}
+	}
+	w.diskMu.Unlock()
+	w.app.Mu.Lock()
+	w.app.Journal, w.app.Plans, w.app.Hist = nil, map[int64]*lib.HeightPlan{}, nil
+	w.app.Mu.Unlock()
+}
 
 func (w *nodeWorld) home(i int) string { return filepath.Join(w.root, fmt.Sprintf("inc%d", i)) }
 
@@ -280,6 +303,8 @@ func (w *nodeWorld) config(home string) *cfg.Config {
 	c.FastSyncMode = w.sc.FastSync
 	c.StateSync.Enable = false
 	c.Mempool.Version = w.sc.Mempool
+	c.Mempool.CacheSize = 200 // the default 10000-entry cache is allocated up front; node objects of hung stops stay reachable
+	c.Mempool.Size = 200
 	c.Consensus.CreateEmptyBlocks = true
 	c.Consensus.CreateEmptyBlocksInterval = 0
 	c.TxIndex.Indexer = w.sc.Indexer
@@ -287,12 +312,12 @@ func (w *nodeWorld) config(home string) *cfg.Config {
 	return c
 }
 
-func (w *nodeWorld) diskDB(id string) *lib.CrashDB {
+func (w *nodeWorld) diskDB(id string) *dbm.MemDB {
 	w.diskMu.Lock()
 	defer w.diskMu.Unlock()
 	d, ok := w.disk[id]
 	if !ok {
-		d = w.journal.NewDB(id)
+		d = dbm.NewMemDB()
 		w.disk[id] = d
 	}
 	return d
@@ -341,7 +366,7 @@ func (w *nodeWorld) copyHome(from, to int) error {
 
 // cursors reads the three persisted cursors straight from the disk and the application.
 type nodeCursors struct {
-	State, Store, App int64
+	State, Store, App  int64
 	StateHash, AppHash []byte
 	Err                string
 }
@@ -525,7 +550,7 @@ func keyClass(k []byte) string {
 	s := string(k)
 	if i := strings.IndexByte(s, ':'); i >= 0 && i <= 24 {
 		s = s[:i+1]
-	} else if len(s) > 16 {
+	} else if len(s) > 24 {
 		return "<key>"
 	}
 	for _, r := range s {
@@ -539,7 +564,7 @@ func keyClass(k []byte) string {
 type gateDB struct {
 	inc  *nodeInc
 	name string
-	disk *lib.CrashDB
+	disk *dbm.MemDB
 }
 
 var _ dbm.DB = (*gateDB)(nil)
@@ -565,10 +590,14 @@ func (d *gateDB) label(kind string, k []byte) string {
 	return kind + "(" + keyClass(k) + ")"
 }
 
+func cpb(b []byte) []byte { return append(make([]byte, 0, len(b)), b...) }
+
 func (d *gateDB) Set(k, v []byte) error {
+	k, v = cpb(k), cpb(v) // the disk keeps its own copies (a MemDB stores the slices it is given)
 	return d.inc.gate(d.name, d.label("set", k), true, func() error { return d.disk.Set(k, v) })
 }
 func (d *gateDB) SetSync(k, v []byte) error {
+	k, v = cpb(k), cpb(v)
 	return d.inc.gate(d.name, d.label("setsync", k), true, func() error { return d.disk.SetSync(k, v) })
 }
 func (d *gateDB) Delete(k []byte) error {
@@ -591,14 +620,14 @@ func (b *gateBatch) Set(k, v []byte) error {
 		b.first = append([]byte(nil), k...)
 	}
 	b.n++
-	return b.b.Set(k, v)
+	return b.b.Set(cpb(k), cpb(v))
 }
 func (b *gateBatch) Delete(k []byte) error {
 	if b.n == 0 {
 		b.first = append([]byte(nil), k...)
 	}
 	b.n++
-	return b.b.Delete(k)
+	return b.b.Delete(cpb(k))
 }
 func (b *gateBatch) Write() error {
 	return b.d.inc.gate(b.d.name, b.d.label("batch", b.first), true, func() error { return b.b.Write() })
@@ -767,22 +796,53 @@ func (inc *nodeInc) bootRoutine(res *nodeBoot, done chan struct{}) {
 	res.startOK = true
 }
 
-// abandon stops what can be stopped of a dead incarnation's node object. Returns an infrastructure complaint.
-func (inc *nodeInc) abandon(n *node.Node, startInterrupted bool) string {
-	if n == nil {
-		return "" // died inside NewNode: nothing was handed out (its event bus and indexer goroutines stay behind)
-	}
+// stopNode calls Node.Stop and waits for it. Outcomes:
+//
+//	"stopped"  Node.Stop returned;
+//	"hung"     Node.Stop cannot return, for a reason that is known and permanent: either Node.Start had been
+//	           interrupted by an injected crash (startInterrupted: the consensus receive routine never started, the
+//	           consensus reactor's OnStop waits for it for ever), or the upstream shutdown deadlock happened: consensus
+//	           State.OnStop stops the timeout ticker while the receive routine is about to schedule a timeout; the
+//	           routine then blocks for ever on the ticker's unbuffered channel, never sees Quit, and Reactor.OnStop
+//	           waits for it (recognised from the goroutine dump: THIS node's receiveRoutine sits in
+//	           timeoutTicker.ScheduleTimeout [chan send] on two looks 250 ms apart while its State is stopped). Either
+//	           way nothing of the node will ever run again; what Node.Stop did not get to is closed by hand;
+//	"timeout"  anything else after nodeStopDeadline (infrastructure).
+//
+// Not part of C05 (the statement says nothing about shutting down); the hang is reported as a class.
+func stopNode(n *node.Node, startInterrupted bool) string {
 	stopped := make(chan struct{})
 	go func() {
 		defer close(stopped)
 		defer func() { recover() }() //nolint
 		n.Stop()                     //nolint
 	}()
+	outcome := "hung"
 	if startInterrupted {
-		// Node.Start was interrupted (the catch-up replay committed a block on the starting goroutine): the consensus
-		// receive routine never started, so Node.Stop waits for it for ever (consensus reactor OnStop -> State.Wait).
-		// It has stopped the event bus, the indexer and the consensus services by then; close the rest by hand.
-		time.Sleep(2 * time.Millisecond)
+		time.Sleep(2 * time.Millisecond) // let Node.Stop get as far as it gets
+	} else {
+		t0, sightings := time.Now(), 0
+	WAIT:
+		for {
+			select {
+			case <-stopped:
+				outcome = "stopped"
+				break WAIT
+			case <-time.After(250 * time.Millisecond):
+			}
+			if !n.ConsensusState().IsRunning() && tickerDeadlock(n) {
+				if sightings++; sightings >= 2 {
+					break WAIT
+				}
+			} else {
+				sightings = 0
+			}
+			if time.Since(t0) > nodeStopDeadline {
+				return "timeout"
+			}
+		}
+	}
+	if outcome == "hung" {
 		func() {
 			defer func() { recover() }() //nolint
 			if w := n.ConsensusState().VerifWAL(); w != nil {
@@ -793,17 +853,34 @@ func (inc *nodeInc) abandon(n *node.Node, startInterrupted bool) string {
 			defer func() { recover() }() //nolint
 			n.VerifC05CloseTransport()   //nolint
 		}()
-		n.ProxyApp().Stop() //nolint
-		closeWALHead(n)
-		return ""
-	}
-	select {
-	case <-stopped:
-	case <-time.After(nodeStopDeadline):
-		return "Node.Stop of a crashed incarnation did not return"
 	}
 	n.ProxyApp().Stop() //nolint
 	closeWALHead(n)
+	return outcome
+}
+
+// tickerDeadlock: is this node's consensus receive routine blocked sending to the (stopped) timeout ticker?
+func tickerDeadlock(n *node.Node) bool {
+	buf := make([]byte, 32<<20)
+	all := string(buf[:runtime.Stack(buf, true)])
+	me := fmt.Sprintf("consensus.(*State).receiveRoutine(%p,", n.ConsensusState())
+	for _, g := range strings.Split(all, "\n\n") {
+		if strings.Contains(g, me) {
+			return strings.Contains(g[:strings.IndexByte(g+"\n", '\n')], "[chan send") &&
+				strings.Contains(g, "consensus.(*timeoutTicker).ScheduleTimeout")
+		}
+	}
+	return false
+}
+
+// abandon stops what can be stopped of a dead incarnation's node object. Returns an infrastructure complaint.
+func (inc *nodeInc) abandon(n *node.Node, startInterrupted bool) string {
+	if n == nil {
+		return "" // died inside NewNode: nothing was handed out (its event bus and indexer goroutines stay behind)
+	}
+	if stopNode(n, startInterrupted) == "timeout" {
+		return fmt.Sprintf("Node.Stop of a crashed incarnation did not return within %v\n%s", nodeStopDeadline, nodeStacks())
+	}
 	return ""
 }
 
@@ -1099,18 +1176,15 @@ func runNodeCase(sc nodeScenario, arms []int, cleanRestart bool) *nodeCaseResult
 		}
 		if outcome == driveReached {
 			// ---- no crash in this incarnation: stop it cleanly
-			stopped := make(chan struct{})
-			go func() { defer close(stopped); boot.node.Stop() }() //nolint
-			select {
-			case <-stopped:
-			case <-time.After(nodeStopDeadline):
+			how := stopNode(boot.node, false)
+			inc.kill() // stragglers (the indexer may still be writing the last block's events) stop here
+			if how == "timeout" {
 				res.Infra = fmt.Sprintf("Node.Stop of incarnation %d did not return within %v\n%s", i, nodeStopDeadline, nodeStacks())
-				inc.kill()
 				return res
 			}
-			inc.kill() // stragglers (the indexer may still be writing the last block's events) stop here
-			boot.node.ProxyApp().Stop() //nolint
-			closeWALHead(boot.node)
+			if how == "hung" {
+				res.class("node-stop-deadlock(ticker stopped before the receive routine; not C05)")
+			}
 			journal(fmt.Sprintf("at the end of incarnation %d (%s)", i, history()))
 			if i == 0 {
 				res.NoCrash = true
@@ -1120,6 +1194,9 @@ func runNodeCase(sc nodeScenario, arms []int, cleanRestart bool) *nodeCaseResult
 						return res
 					}
 					restartKind = "clean-stop"
+					if how == "hung" {
+						restartKind = "hung-stop"
+					}
 					arms = nil
 					maxInc = 2
 					continue
@@ -1190,16 +1267,21 @@ func TestNodeRestartCrashPoints(t *testing.T) {
 			os.RemoveAll(nodeScratchRoot)
 		}
 	}()
-	defer func() { t.Logf("goroutines at the end: %d", runtime.NumGoroutine()) }()
+	defer func() {
+		t.Logf("goroutines at the end: %d", runtime.NumGoroutine())
+		if os.Getenv("VERIF_C05_DUMP") != "" {
+			nodeStacks()
+		}
+	}()
 	rapid.Check(t, func(t *rapid.T) {
 		sc := genNodeScenario(t)
 		second := rapid.IntRange(0, 2).Draw(t, "secondCrash") == 0
 		second2 := 0
 		if second {
-			second2 = rapid.IntRange(0, 44).Draw(t, "secondCrashIndex")
+			second2 = nodePick(sc, rapid.Uint64().Draw(t, "secondCrashSalt"), 45)
 		}
 		cleanRestart := rapid.IntRange(0, 3).Draw(t, "cleanRestartInDryRun") == 0
-		pick := rapid.IntRange(0, 1<<20).Draw(t, "crashPick")
+		salt := rapid.Uint64().Draw(t, "crashSalt")
 
 		// dry run: the same scenario without a crash counts the persistence operations
 		dry := runNodeCase(sc, nil, cleanRestart)
@@ -1216,7 +1298,7 @@ func TestNodeRestartCrashPoints(t *testing.T) {
 		for _, c := range dry.Classes {
 			lib.Class(nodeTest, "dry-run:"+c)
 		}
-		k := pick % dry.Ops // uniform over the operations of the dry run
+		k := nodePick(sc, salt, dry.Ops) // uniform over the operations of the dry run
 		arms := []int{k}
 		if second {
 			arms = append(arms, second2)
@@ -1272,6 +1354,13 @@ func TestNodeRestartCrashPoints(t *testing.T) {
 	})
 }
 
+// nodePick maps the drawn values to an index in [0,n), uniformly: rapid's integer and SampledFrom generators favour
+// small values (measured: operation 0 was drawn in 11% of the cases), a hash of everything drawn does not. Still a
+// pure function of the draws.
+func nodePick(sc nodeScenario, salt uint64, n int) int {
+	return int(lib.FP(sc.String(), salt, n) % uint64(n))
+}
+
 func around(l []string, k, r int) []string {
 	lo, hi := k-r, k+r+1
 	if lo < 0 {
@@ -1293,5 +1382,3 @@ func around(l []string, k, r int) []string {
 	}
 	return out
 }
-
-var _ = sort.Strings
